@@ -266,7 +266,7 @@ class CertFam(Family):
                     self._sigset(L, scheme, nm + "s", pairs)
                     L.append(f"agg {nm} sig={nm}s view={view} qcs=" + (",".join(f"{i}:{qcs[i]}" for i in qcs) or "-"))
                 L.append(f"verify-agg {R()} {nm}")
-                if kind == "honest" and scheme != "bls12" and twin is None and rng.random() < 0.5:
+                if kind == "honest" and twin is None and rng.random() < 0.5:
                     # one signer's attested QC is replaced by a variant with the SAME signature bytes cut at
                     # another place (or attributed to other signers): not what that signer signed
                     cands = [i for i in qcs if qcs[i].startswith("Q") and qcs[i][1:].isdigit()
@@ -278,7 +278,12 @@ class CertFam(Family):
                         vw = next((vv for bb, vv in views if bb == f"B{k_}"), None)
                         vq = fresh("vq")
                         a_, b_ = sorted(rng.sample(range(1, n + 1), 2)) if n >= 2 else (1, 1)
-                        if rng.random() < 0.5:
+                        if scheme == "bls12":
+                            # the same point, attributed to other replicas
+                            src = next(l for l in L if l.startswith("create-qc ") and f" {hq} " in l).split()[4:]
+                            ids_ = sorted({(int(x.split("_")[1]) % n) + 1 for x in src})
+                            L.append(f"bls {vq}s pt={hq}.sig bits={','.join(map(str, ids_))}")
+                        elif rng.random() < 0.5:
                             L.append(f"multi {vq}s {a_}:cutA10@{hq}.sig {b_}:cutB10@{hq}.sig")
                         else:
                             # same parts, signers relabelled (rotated)
